@@ -278,6 +278,27 @@ def rule_r2(ctx):
             rr.ok(f"open@{w.lineno}")
         else:
             rr.fail("C16-R2|__main__|output-path", f"{mi.rel}:{w.lineno}: the output is not opened at the path given by -o ({ast.unparse(a0) if a0 is not None else ''})", what=f"open@{w.lineno}")
+        # the text is one expression without an encoding cookie: `python OUT` reads it as UTF-8, so that
+        # is how it has to be written - a constant, not the locale default and not the script's encoding
+        rr.instances += 1
+        mode = w.args[1].value if len(w.args) > 1 and isinstance(w.args[1], ast.Constant) else None
+        for kw in w.keywords:
+            if kw.arg == "mode" and isinstance(kw.value, ast.Constant):
+                mode = kw.value.value
+        enc = [kw.value for kw in w.keywords if kw.arg == "encoding"]
+        if len(w.args) > 3:
+            enc.append(w.args[3])
+        what_e = f"open@{w.lineno}|encoding"
+        if isinstance(mode, str) and "b" in mode:
+            rr.ok(what_e, sample={"rule": "C16-R2", "output": "binary mode (the bytes written are judged at the write)"})
+        elif len(enc) == 1 and isinstance(enc[0], ast.Constant) and isinstance(enc[0].value, str) and enc[0].value.lower().replace("-", "").replace("_", "") == "utf8":
+            rr.ok(what_e, sample={"rule": "C16-R2", "output_encoding": enc[0].value})
+        else:
+            rr.fail(
+                "C16-R2|__main__|output-encoding",
+                f"{mi.rel}:{w.lineno}: the output file is opened with encoding `{ast.unparse(enc[0]) if enc else 'the locale default'}`, not with the constant UTF-8: the written text has no encoding cookie, so `python OUT` decodes it as UTF-8; for a `# coding: latin-1` script the non-ASCII characters of literals are stored as single bytes (OUT no longer decodes to the API text, SyntaxError 'Non-UTF-8 code'), a BOM script gets a BOM the API text does not have",
+                where=f"{mi.rel}:{w.lineno}", what=what_e,
+            )
     # script argument
     rr.instances += 1
     s_arg = conv.args[0] if conv.args else None
